@@ -352,6 +352,9 @@ func main() {
 			cfgs = append(cfgs, cfg{stack: stacks.Config{Kind: k, InnerMTU: 28, MTU: 200}, askers: 1, servers: 1, respLen: []int{bufCap}})
 		}
 		if k == "mbapp" {
+			// two askers on different nodes whose multi-part requests are in flight at the same
+			// (virtual) instant: their group ids coincide, reassembly must keep them apart by source
+			cfgs = append(cfgs, cfg{stack: stacks.Config{Kind: k, InnerMTU: 28, MTU: 200}, askers: 2, servers: 2, respLen: []int{bufCap, 3}, workers: 2})
 			// two receive workers after an ask that failed at the server (buffer recycling paths)
 			cfgs = append(cfgs, cfg{stack: s, askers: 2, servers: 2, respLen: []int{bufCap, bufCap - 1}, preFail: true, workers: 2})
 			// the asked server never answers; a third party forges a reply with the ask's id
